@@ -12,7 +12,16 @@ The extraction is purely textual and brace matched.  It drops / rewrites exactly
   D4  outer attributes  #[inline..] #[cold] #[derive(Debug)] #[must_use] #[expect(..)] #[cfg(test)]-less
   D5  `pub(crate)` -> `pub`
   D6  contract splice: `fn f(..) -> T {`  ->  `fn f(..) -> (r: T) <contract text> {`
+      (a `where` clause of the signature is kept, in front of the contract text)
   D7  (lib.rs only) only the listed helper functions are taken
+  D8  (chunk/size.rs) `PhantomData<fn() -> (A, S)>` -> `PhantomData<(A, S)>` (no function pointer types in Verus)
+  D9  (chunk/size.rs) top-level `const _: () = assert!(..);` items
+  D10 (chunk/size.rs) `macro_rules! attempt` is moved, verbatim, in front of the `verus!{}` block
+  D11 (chunk/size.rs) the associated const `ChunkSize::MINIMUM` (its initialiser calls `from_hint` at compile time,
+      which Verus does not accept; `from_hint` itself stays under contract)
+  The environment of chunk/size.rs that is NOT extracted is declared in verus/modheads/chunk_size.rs: the trait
+  `BumpAllocatorSettings` reduced to the two associated consts read here, an opaque `ChunkHeader<A>`, trusted
+  specifications of `Layout::new`, `Layout::from_size_align` and two layout axioms (each listed in the evidence).
 
 Function bodies are otherwise byte-identical; this is re-checked for every function
 (body_identity) and a SHA-256 of every source body is recorded in the report.
@@ -118,6 +127,58 @@ def drop_macro_defs(text, counter):
             end += 1
         text = text[: m.start()] + text[end:]
         counter["D2_macro_definitions"] = counter.get("D2_macro_definitions", 0) + 1
+
+
+PHANTOM_FN = re.compile(r"PhantomData<fn\(\) -> (\([^)]*\))>")
+
+
+def rewrite_phantom_fn(text, counter):
+    """D8: `PhantomData<fn() -> (A, S)>` -> `PhantomData<(A, S)>` (Verus has no function pointer types; the marker
+    is zero-sized and never read)."""
+    n = len(PHANTOM_FN.findall(text))
+    if n:
+        counter["D8_phantom_fn_markers"] = counter.get("D8_phantom_fn_markers", 0) + n
+    return PHANTOM_FN.sub(r"PhantomData<\1>", text)
+
+
+def drop_const_asserts(text, counter):
+    """D9: top-level `const _: () = assert!(..);` items (compile-time checks, no run-time code)."""
+    rx = re.compile(r"^const _: \(\) = assert!\([^;]*\);[ \t]*\n", re.M)
+    n = len(rx.findall(text))
+    if n:
+        counter["D9_const_assert_items"] = counter.get("D9_const_assert_items", 0) + n
+    return rx.sub("", text)
+
+
+def drop_assoc_consts(text, counter):
+    """D11: associated `const NAME: Self = match <call> {..};` items inside impl blocks (their initialiser calls an
+    exec function at compile time, which Verus does not accept; the functions they call stay under contract)."""
+    while True:
+        m = re.search(r"^[ \t]+pub const [A-Z_]+: Self = match [^{]*\{", text, re.M)
+        if not m:
+            return text
+        close = match_close(text, m.end() - 1, "{", "}")
+        end = text.index(";", close) + 1
+        if text[end:end + 1] == "\n":
+            end += 1
+        text = text[: m.start()] + text[end:]
+        counter["D11_associated_const_items"] = counter.get("D11_associated_const_items", 0) + 1
+
+
+def hoist_macros(text, counter, hoisted):
+    """D10: other `macro_rules!` definitions are moved, verbatim, in front of the `verus!{}` block
+    (the verus! macro does not accept macro definitions inside it)."""
+    while True:
+        m = re.search(r"^macro_rules!\s+([a-z_]+)\s*\{", text, re.M)
+        if not m:
+            return text
+        close = match_close(text, m.end() - 1, "{", "}")
+        end = close + 1
+        if text[end:end + 1] == "\n":
+            end += 1
+        hoisted.append(text[m.start():end])
+        text = text[: m.start()] + text[end:]
+        counter["D10_macro_definitions_hoisted"] = counter.get("D10_macro_definitions_hoisted", 0) + 1
 
 
 def drop_header(text, counter):
@@ -236,9 +297,16 @@ def splice_contracts(text, contracts, counter, report, modname):
             continue
         used.add(f["qual"])
         sig_tail = text[f["params_close"] + 1 : f["body_open"]]
+        where = ""
+        mw = re.search(r"\n\s*where\b", sig_tail)
+        if mw:
+            where = sig_tail[mw.start():].rstrip()
+            if not where.endswith(","):
+                where += ","
+            sig_tail = sig_tail[: mw.start()]
         m = re.match(r"\s*->\s*(.*?)\s*$", sig_tail, re.S)
         if m:
-            new_tail = " -> (r: %s)\n%s" % (m.group(1), spec)
+            new_tail = " -> (r: %s)%s\n%s" % (m.group(1), where, spec)
         else:
             if sig_tail.strip() != "":
                 raise ExtractError("unexpected signature tail for %s: %r" % (f["qual"], sig_tail))
@@ -300,10 +368,11 @@ MODULES = [
     ("bumping", "src/bumping.rs", None),
     ("size_config", "src/chunk/size_config.rs", None),
     ("libhelpers", "src/lib.rs", ["up_align_usize_unchecked", "down_align_usize", "bump_down", "min_non_zero_cap", "align_pos"]),
+    ("chunk_size", "src/chunk/size.rs", None),
 ]
 
 
-def extract_module(modname, relpath, names, report):
+def extract_module(modname, relpath, names, report, hoisted=None):
     src = open(os.path.join(REPO, relpath)).read()
     counter = {}
     text = src
@@ -314,10 +383,14 @@ def extract_module(modname, relpath, names, report):
     else:
         text = drop_header(text, counter)
     text = drop_macro_defs(text, counter)
+    text = hoist_macros(text, counter, hoisted if hoisted is not None else [])
+    text = drop_const_asserts(text, counter)
+    text = drop_assoc_consts(text, counter)
     text = drop_debug_asserts(text, counter)
     text = drop_attrs(text, counter)
     text = pub_crate(text, counter)
     body_hashes(src, text, None, report, modname)
+    text = rewrite_phantom_fn(text, counter)
     contracts = load_contracts(os.path.join(VERIF, "verus", "contracts", modname + ".spec"))
     text = splice_contracts(text, contracts, counter, report, modname)
     report.setdefault("drops", {})[modname] = counter
@@ -335,13 +408,15 @@ def indent(text, n=4):
 def build(out_path, report_path=None):
     report = {}
     prelude = open(os.path.join(VERIF, "verus", "prelude.rs")).read()
-    parts = [prelude, "\nverus! {\n"]
+    parts = [prelude, "", "\nverus! {\n"]
+    hoisted = []
     for modname, relpath, names in MODULES:
-        body = extract_module(modname, relpath, names, report)
+        body = extract_module(modname, relpath, names, report, hoisted)
         header_path = os.path.join(VERIF, "verus", "modheads", modname + ".rs")
         header = open(header_path).read() if os.path.exists(header_path) else ""
         parts.append("pub mod %s {\n%s\n%s\n}\n\n" % (modname, indent(header), indent(body)))
     parts.append("} // verus!\n\n")
+    parts[1] = "\n// ---- macro definitions hoisted out of the extracted modules (D10) ----\n" + "".join(hoisted)
     ldir = os.path.join(VERIF, "verus", "lemmas")
     for fn in sorted(os.listdir(ldir)) if os.path.isdir(ldir) else []:
         if fn.endswith(".rs"):
